@@ -62,3 +62,6 @@ func (s *Scorch) VerifFileState() (*VerifFileState, error) {
 	rv.Epochs, _ = s.RootBoltSnapshotEpochs()
 	return rv, nil
 }
+
+// VerifSnapshotEpoch returns the epoch of an index snapshot (a reader).
+func VerifSnapshotEpoch(is *IndexSnapshot) uint64 { return is.epoch }
